@@ -35,7 +35,7 @@ from . import common
 from .common import Check, Graph, impl_call
 
 INVS = ["TypeOK", "ClaimConsistent", "CircuitsAnchored"]
-PROPS = ["GhostsRight", "ClaimRule", "DeliveredOnce", "UseCircuitRule", "DiscardsInert", "NoCrossTalk", "OnlyNamedChanges",
+PROPS = ["GhostsRight", "AnnounceRule", "ClaimRule", "DeliveredOnce", "UseCircuitRule", "DiscardsInert", "NoCrossTalk", "OnlyNamedChanges",
          "OpenStaysDeliverable"]
 SOCKS_BAD = ("badrsv", "badfrag", "badatyp", "shortsocks")
 LLUDP_BAD = ("short", "unkmsg")
@@ -44,7 +44,7 @@ KILL_KINDS = {"killc": "CloseCircuit", "killd": "DisableSimulator"}
 
 
 def _consts(c):
-    return "NA = %(NA)d NS = %(NS)d NH = %(NH)d Dyn = %(Dyn)s" % c
+    return 'NA = %(NA)d NS = %(NS)d NH = %(NH)d Dyn = %(Dyn)s NG = %(NG)d GMode = "%(GMode)s"' % c
 
 
 # ----------------------------------------------------------------------------------------
@@ -287,6 +287,19 @@ def _session_manager():
     return _SM
 
 
+_EM = None
+
+
+def _event_manager(sm):
+    """The proxy's HTTP event manager (handles event-queue messages), one per SessionManager."""
+    global _EM
+    if _EM is None or _EM[0] is not sm:
+        from hippolyzer.lib.base.message.llsd_msg_serializer import LLSDMessageSerializer
+        from hippolyzer.lib.proxy.http_event_manager import MITMProxyEventManager
+        _EM = (sm, MITMProxyEventManager(sm, sm.flow_context), LLSDMessageSerializer())
+    return _EM[1], _EM[2]
+
+
 def _addr(e):
     return (".".join(str(b) for b in e["ip"]), e["port"])
 
@@ -329,20 +342,63 @@ class World:
         _pump(2)
 
     # --- environment actions ---------------------------------------------------------------
-    def login(self, s, h):
+    def login(self, s, h, g=1):
         sid, ssid, aid, code = self.ids[s - 1]
         ip, port = self.sims[h - 1]
         self.sessions[s - 1] = self.sm.create_session({
             "session_id": str(sid), "secure_session_id": str(ssid), "agent_id": str(aid), "circuit_code": code,
-            "sim_ip": ip, "sim_port": port, "region_x": 256000 + 256 * h, "region_y": 256000,
+            "sim_ip": ip, "sim_port": port, "region_x": 256000 + 256 * g, "region_y": 256000,    # = handle_value(g)
             "seed_capability": "https://sim%d.example/cap/seed-%d" % (h, s)})
 
-    def add_region(self, s, h):
-        mode = self.rng.randrange(3)
-        handle = ((256000 + 256 * h) << 32) | 256000
-        self.sessions[s - 1].register_region(
-            self.sims[h - 1], seed_url=None if mode == 0 else "https://sim%d.example/cap/seed-%d" % (h, s),
-            handle=None if mode == 1 else handle)
+    @staticmethod
+    def handle_value(g):
+        return ((256000 + 256 * g) << 32) | 256000
+
+    def add_region(self, s, h, g):
+        """Region handle g (0: none) is announced at simulator h, through one of the ways the proxy
+        learns about regions: the event-queue messages EnableSimulator / TeleportFinish /
+        CrossedRegion / EstablishAgentCommunication as handled by MITMProxyEventManager, or
+        Session.register_region directly.  Returns the name of the way taken."""
+        from hippolyzer.lib.base.message.message import Message, Block
+        rng = self.rng
+        se = self.sessions[s - 1]
+        ip, port = self.sims[h - 1]
+        self.n_seed = getattr(self, "n_seed", 0) + 1
+        seed = "https://sim%d.example/cap/seed-%d-%d" % (h, s, self.n_seed)
+        ways = (["EnableSimulator", "TeleportFinish", "CrossedRegion", "register_region", "register_region+seed"] if g
+                else ["EstablishAgentCommunication", "register_region+seed"])
+        if not se.regions:
+            ways = [x for x in ways if x.startswith("register_region")]
+        way = rng.choice(ways)
+        hv = self.handle_value(g) if g else None
+        if way == "register_region":
+            se.register_region((ip, port), handle=hv)
+            return way
+        if way == "register_region+seed":
+            se.register_region((ip, port), seed_url=seed, handle=hv)
+            return way
+        em, ser = _event_manager(self.sm)
+        _, _, aid, _ = self.ids[s - 1]
+        if way == "EnableSimulator":
+            ev = ser.serialize(Message("EnableSimulator", Block("SimulatorInfo", Handle=hv, IP=ip, Port=port)), as_dict=True)
+        elif way == "TeleportFinish":
+            ev = ser.serialize(Message("TeleportFinish", Block(
+                "Info", AgentID=aid, LocationID=4, SimIP=ip, SimPort=port, RegionHandle=hv, SeedCapability=seed,
+                SimAccess=13, TeleportFlags=0)), as_dict=True)
+        elif way == "CrossedRegion":
+            ev = ser.serialize(Message(
+                "CrossedRegion", Block("AgentData", AgentID=aid, SessionID=self.ids[s - 1][0]),
+                Block("RegionData", SimIP=ip, SimPort=port, RegionHandle=hv, SeedCapability=seed),
+                Block("Info", Position=(1.0, 2.0, 3.0), LookAt=(1.0, 0.0, 0.0))), as_dict=True)
+        else:
+            ev = {"message": "EstablishAgentCommunication",
+                  "body": {"agent-id": str(aid), "sim-ip-and-port": "%s:%d" % (ip, port), "seed-capability": seed}}
+        try:
+            handler = em._handle_eq_event      # reflection bridge: the proxy's own event-queue hook
+        except AttributeError as e:
+            raise common.MachineryError("event-queue bridge broke: %s" % e)
+        handler(se, rng.choice(list(se.regions)), ev)
+        return way
 
     # --- datagrams ----------------------------------------------------------------------------
     PID_SPECIAL = (0, 1, 2, 255, 256, 511, 10000, 10001, 0xFFFF, 0x10000, 0xFFFFFE, 0xFFFFFF, 0x1000000,
@@ -476,14 +532,14 @@ def _apply(w: World, lay, act):
     """Perform one abstract action on the real objects; returns (label, payload, sends, raised)."""
     if act["n"] == "Login":
         del w.sink[:]
-        w.login(act["s"], act["_login_sim"])
+        w.login(act["s"], act["_login_sim"], act["_login_handle"])
         _pump()
         return "Login", b"", list(w.sink), None
     if act["n"] == "Reg":
         del w.sink[:]
-        w.add_region(act["s"], act["h"])
+        way = w.add_region(act["s"], act["h"], act["a"])      # a Reg event carries the handle in field a
         _pump()
-        return "Reg", b"", list(w.sink), None
+        return "Reg:" + way, b"", list(w.sink), None
     label, pl, dgram, src = _concretise(w, lay, act)
     sends, raised = w.recv(act["a"], dgram, src)
     return label, pl, sends, raised
@@ -517,7 +573,9 @@ def _judge(w: World, lay, e, pl, sends, raised, pr):
                     "got": [(v, d.hex(), t) for v, d, t in sends], "raised": raised})
     want = _norm_state(e["dst"])
     if pr != want:
-        bad.append({"clause": "state", "what": "public session state differs", "expected": want, "got": pr, "raised": raised})
+        stray = any("!" in c for row in pr["circ"] for c in row)
+        bad.append({"clause": "state", "what": "a region's circuit is to another address than the region's" if stray
+                    else "public session state differs", "expected": want, "got": pr, "raised": raised})
     return bad
 
 
@@ -535,6 +593,7 @@ def _prep(g: Graph):
     for e in g.edges:
         if e["act"]["n"] == "Login":
             e["act"]["_login_sim"] = e["dst"]["regs"][e["act"]["s"] - 1][0]
+            e["act"]["_login_handle"] = e["dst"]["hnd"][e["act"]["s"] - 1][e["act"]["_login_sim"] - 1]
     depth = {k: 0 for k in g.inits}
     dq = collections.deque(depth)
     while dq:
@@ -876,15 +935,15 @@ def _walk(pool: Pool, seed, NA, NS, NH, length):
             continue
         if logged and c < 0.12:
             s = rng.choice(sorted(logged))
-            cand = [h for h in range(1, NH + 1) if h not in registered[s]]
-            if cand:
-                h = rng.choice(cand)
-                del w.sink[:]
-                w.add_region(s, h)
-                _pump()
-                registered[s].add(h)
-                evs.append({"ev": "Reg", "s": s, "h": h, "sent": sent_json(w.sink), "proj": w.proj()})
-                continue
+            # any handle (or none) at any address: new, re-announced, moved, shared
+            h = rng.randrange(1, NH + 1)
+            g = rng.choice([0, 1, 1, 2, 2])
+            del w.sink[:]
+            way = w.add_region(s, h, g)
+            _pump()
+            registered[s].add(h)
+            evs.append({"ev": "Reg", "s": s, "g": g, "h": h, "way": way, "sent": sent_json(w.sink), "proj": w.proj()})
+            continue
         a = rng.randrange(1, NA + 1)
         held = w.protos[a - 1].session
         held_s = next((i + 1 for i, x in enumerate(w.sessions) if x is held), 0) if held is not None else 0
@@ -1023,9 +1082,9 @@ def _churn_walk(pool: Pool, seed, NA, NS, NH, n_far):
         if rng.random() < 0.6:
             h2 = rng.choice([x for x in range(1, NH + 1) if x != h])
             del w.sink[:]
-            w.add_region(s, h2)
+            way = w.add_region(s, h2, 2)
             _pump()
-            evs.append({"ev": "Reg", "s": s, "h": h2, "sent": sent_json(w.sink), "proj": w.proj()})
+            evs.append({"ev": "Reg", "s": s, "g": 2, "h": h2, "way": way, "sent": sent_json(w.sink), "proj": w.proj()})
             hs.append(h2)
         for hh in hs:
             label, pl = w.payload("C", "ucc", s)
@@ -1085,7 +1144,7 @@ def _b2(chk: Check, n_walks, length, label, churn=()):
     res = [x for part in common.parallel_map(_walk_chunk, common.chunked(args, common.NCPU)) for x in part]
     chk.notes.append("B2 %s: %d walks recorded in %.1fs" % (label, n_walks, time.time() - t0))
     traces = [r[0] for r in res]
-    cfg = ("SPECIFICATION TraceSpec\nCONSTANTS NA = %d NS = %d NH = %d Dyn = TRUE\nPOSTCONDITION TraceAccepted\n"
+    cfg = ("SPECIFICATION TraceSpec\nCONSTANTS NA = %d NS = %d NH = %d Dyn = TRUE NG = 2 GMode = \"any0\"\nPOSTCONDITION TraceAccepted\n"
            "CHECK_DEADLOCK FALSE\n" % (NA, NS, NH))
     acc, rej, results = common.validate_traces("UdpProxy_Trace", cfg, traces, chk.scratch,
                                                shards=4 if chk.tier == "quick" else common.NCPU)
@@ -1173,17 +1232,23 @@ def run(chk: Check):
         "packet IDs of valid datagrams are arbitrary 32-bit values in arbitrary order (repeats, wrap-around, jumps of more "
         "than the injection window up and down); the forwarded bytes, ID included, are compared / recomputed by TLC",
         "domain-name (ATYP 3) requests never match a circuit: circuits are keyed by IP address and port",
+        "region announcements name a handle and an address; routing is by address only: an announcement registers its address "
+        "and touches no circuit, except that the implementation may forget regions it knew under the same handle at OTHER "
+        "addresses (choice bound to the observation); region.handle itself is not compared",
     ]
     quick = chk.tier == "quick"
     _POOL = Pool(random.Random(chk.seed * 7 + 6), 1 if quick else 3)
     chk.cov["pool"] = {"templates": _POOL.n_templates, "valid_out": len(_POOL.msgs["C"]), "valid_in": len(_POOL.msgs["H"]),
                        "banned": len(_POOL.banned["H"]), "excluded": _POOL.excluded[:20]}
     if quick:
-        _b1(chk, dict(NA=2, NS=2, NH=2, Dyn="TRUE"), "2x2x2", layouts="alternate")
+        _b1(chk, dict(NA=2, NS=2, NH=2, Dyn="TRUE", NG=2, GMode="addr"), "2x2x2", layouts="alternate")
+        _b1(chk, dict(NA=1, NS=1, NH=3, Dyn="TRUE", NG=2, GMode="any"), "1x1x3-2handles", layouts="alternate")
         _b2(chk, 48, 120, "rand", churn=[150, 300, 300, 450])
     else:
-        _b1(chk, dict(NA=2, NS=2, NH=2, Dyn="TRUE"), "2x2x2")
-        _b1(chk, dict(NA=2, NS=2, NH=3, Dyn="TRUE"), "2x2x3", layouts="alternate")
+        _b1(chk, dict(NA=2, NS=2, NH=2, Dyn="TRUE", NG=2, GMode="addr"), "2x2x2")
+        _b1(chk, dict(NA=1, NS=1, NH=3, Dyn="TRUE", NG=2, GMode="any0"), "1x1x3-2handles")
+        _b1(chk, dict(NA=2, NS=2, NH=2, Dyn="TRUE", NG=2, GMode="any"), "2x2x2-2handles", layouts="alternate")
+        _b1(chk, dict(NA=2, NS=2, NH=3, Dyn="TRUE", NG=3, GMode="addr"), "2x2x3", layouts="alternate")
         _b2(chk, 640, 160, "rand", churn=[100, 200, 300, 400, 600, 800] * 6 + [1500, 2500, 4200, 4200])
     chk.cov["exhaustive"] = True
 
